@@ -325,6 +325,7 @@ def make_strategy(script: dict):
                     # (a row within the market band is filled at the CURRENT price, not at its own: both are possible entries)
                     ps = [p for q, p in rows] + [float(self.price)]
                     sl, tp = self._exit_rows('long', None, sum(q for q, p in rows), min(ps), max(ps))
+                    sl = self._stop_inside_ladder('long', rows, sl)
                     if sl:
                         self.stop_loss = sl
                     if tp:
@@ -342,6 +343,7 @@ def make_strategy(script: dict):
                 if self.s.get('exits_in', 'open') == 'go':
                     ps = [p for q, p in rows] + [float(self.price)]
                     sl, tp = self._exit_rows('short', None, sum(q for q, p in rows), min(ps), max(ps))
+                    sl = self._stop_inside_ladder('short', rows, sl)
                     if sl:
                         self.stop_loss = sl
                     if tp:
@@ -350,6 +352,24 @@ def make_strategy(script: dict):
                 self._maybe_raise('go_short')
             finally:
                 TR.cur_hook = prev
+
+        def _stop_inside_ladder(self, side, rows, sl):
+            """option sl_inside_ladder: a protective stop between the first and the second rung of an entry ladder - on the losing
+            side of the first fill (a proper stop when the position opens), but not of the planned average entry"""
+            if not (self.s.get('sl_inside_ladder') and sl and len(rows) >= 2):
+                return sl
+            prices = sorted({p for q, p in rows}, reverse=(side == 'long'))
+            if len(prices) < 2:
+                return sl
+            mid = self._px((prices[0] + prices[1]) / 2)
+            lo, hi = min(prices[0], prices[1]), max(prices[0], prices[1])
+            cur = float(self.price)
+            inside = lo < mid < hi and ((side == 'long' and mid < cur * (1 - 0.0005)) or (side == 'short' and mid > cur * (1 + 0.0005)))
+            if not inside:
+                return sl
+            from .tracer import TR as _TR
+            _TR.emit('note', what='stop_inside_ladder')
+            return [(sum(q for q, p in rows), mid)]
 
         def _side(self):
             return 'long' if self.is_long else 'short'
